@@ -199,10 +199,10 @@ def withTA (c : IndexCtx) (rid : Nat) (ta : TemplateArgument) : IndexCtx :=
     ((c.setSM (c.symbolMap.addTemplateArgument ta).2).symbolMap.modRecord rid fun rec =>
       { rec with nameToTemplateArg := indexMapInsert rec.nameToTemplateArg ta.name (c.symbolMap.addTemplateArgument ta).1 })
 
-theorem PInv.declareTA {cenv : CEnv} {N : Std.HashMap String Nat} {rid : Nat} {ps : Params} {bv gv : Env} {outer : List Scope} {xt : XTab} {env : Env} {c : IndexCtx}
-    (h : PInv cenv N rid ps bv gv outer xt env c) (ta : TemplateArgument) (hname : ta.name ∉ ps.map (·.1))
+theorem PInv.declareTA {cenv : CEnv} {N : Std.HashMap String Nat} {rid : Nat} {ps : Params} {bv gv : Env} {outer : List Scope} {xt : XTab} {dt : DTabs} {env : Env} {c : IndexCtx}
+    (h : PInv cenv N rid ps bv gv outer xt dt env c) (ta : TemplateArgument) (hname : ta.name ∉ ps.map (·.1))
     (hprim : isPrimTy ta.typ = true) :
-    PInv cenv N rid (ps ++ [(ta.name, ta.typ, ta.hasDefaultValue)]) bv gv outer xt env (withTA c rid ta) := by
+    PInv cenv N rid (ps ++ [(ta.name, ta.typ, ta.hasDefaultValue)]) bv gv outer xt dt env (withTA c rid ta) := by
   have hrid : rid < c.symbolMap.recordList.size := by have := h.newest; omega
   have htl : (withTA c rid ta).symbolMap.templateArgList = c.symbolMap.templateArgList.push ta := rfl
   have hrec : ∀ i, i < c.symbolMap.recordList.size →
@@ -238,7 +238,9 @@ theorem PInv.declareTA {cenv : CEnv} {N : Std.HashMap String Nat} {rid : Nat} {p
   have hnew : (withTA c rid ta).symbolMap.templateArg c.symbolMap.templateArgList.size = ta := by
     show (c.symbolMap.templateArgList.push ta)[c.symbolMap.templateArgList.size]! = _
     exact getElem!_push_size _ _
-  refine ⟨?_, h.top, by rw [hsize]; exact h.newest, ?_, ?_, h.trace, h.ntc, h.x⟩
+  refine ⟨?_, h.top, by rw [hsize]; exact h.newest, ?_, ?_, h.trace, h.ntc, h.x,
+    h.d.transport h.older1 (fun i hi => by rw [hrec i (by omega)]; split <;> rfl)
+      (fun i hi => by rw [hrec i (by omega)]; split <;> rfl) (fun _ _ _ => rfl)⟩
   · exact h.k.transport (Nat.le_of_eq hsize.symm) hold hag (Nat.le_refl _) (fun _ _ => rfl) htsz hta (fun _ _ _ => rfl)
   · refine h.exact.transport' (rid + 1) (Nat.lt_succ_self _) (fun i hi => h.k.older i (by omega)) ?_ (Nat.le_refl _)
       (fun _ _ => rfl)
@@ -333,11 +335,11 @@ def coreTemplateArgDecl4 (ps : Params) (n : PTree) : Option Params :=
 section core4
 variable (k : Nat)
 
-theorem args4_step (cenv : CEnv) (N : Std.HashMap String Nat) (rid : Nat) (ps : Params) (bv gv : Env) (outer : List Scope) (xt : XTab) (env : Env) :
-    ∀ (args : List PTree) (tys : List Ty) (c : IndexCtx), PInv cenv N rid ps bv gv outer xt env c →
+theorem args4_step (cenv : CEnv) (N : Std.HashMap String Nat) (rid : Nat) (ps : Params) (bv gv : Env) (outer : List Scope) (xt : XTab) (dt : DTabs) (env : Env) :
+    ∀ (args : List PTree) (tys : List Ty) (c : IndexCtx), PInv cenv N rid ps bv gv outer xt dt env c →
       coreArgs4 (bv ++ (env ++ (ps.env ++ gv))) tys args = true →
       ∃ avs c1, (args.mapM fun a => indexArgValue (mkRec (k + 1)) a).run c = .ok (avs, c1) ∧ PosOK tys avs ∧
-        avs.length = args.length ∧ c1.diagnostics = c.diagnostics ∧ PInv cenv N rid ps bv gv outer xt env c1 := by
+        avs.length = args.length ∧ c1.diagnostics = c.diagnostics ∧ PInv cenv N rid ps bv gv outer xt dt env c1 := by
   intro args
   induction args with
   | nil =>
@@ -355,7 +357,7 @@ theorem args4_step (cenv : CEnv) (N : Std.HashMap String Nat) (rid : Nat) (ps : 
       | some v =>
         rw [hpv] at hv
         simp only at hv
-        obtain ⟨vt, c1, hvr, hcast, hd1, hinv1⟩ := init3_value k cenv N rid ps bv gv outer xt env ty v c hinv hv
+        obtain ⟨vt, c1, hvr, hcast, hd1, hinv1⟩ := init3_value k cenv N rid ps bv gv outer xt dt env ty v c hinv hv
         obtain ⟨avs, c2, hr2, hpos, hlen, hd2, hinv2⟩ := ih tys c1 hinv1 hrest
         have ha : (indexArgValue (mkRec (k + 1)) a).run c = .ok (some (none, vt, nodeRange a), c1) := by
           unfold indexArgValue
@@ -368,11 +370,12 @@ theorem args4_step (cenv : CEnv) (N : Std.HashMap String Nat) (rid : Nat) (ps : 
         rfl
 
 
-theorem resolveClassRefAsClass_args (cenv : CEnv) (N : Std.HashMap String Nat) (rid : Nat) (ps : Params) (bv gv : Env) (outer : List Scope) (xt : XTab) (env flds : Env)
-    (cr : PTree) (c : IndexCtx) (hinv : PInv cenv N rid ps bv gv outer xt env c)
+theorem resolveClassRefAsClass_args (cenv : CEnv) (N : Std.HashMap String Nat) (rid : Nat) (ps : Params) (bv gv : Env) (outer : List Scope) (xt : XTab) (dt : DTabs) (env flds : Env)
+    (cr : PTree) (c : IndexCtx) (hinv : PInv cenv N rid ps bv gv outer xt dt env c)
     (hchk : coreClassRef4 cenv (bv ++ (env ++ (ps.env ++ gv))) cr = some flds) :
     ∃ cid c1, (resolveClassRefAsClass (mkRec (k + 1)) cr).run c = .ok (some cid, c1) ∧ cid < rid ∧
-      Exact c1.symbolMap cid flds ∧ c1.diagnostics = c.diagnostics ∧ PInv cenv N rid ps bv gv outer xt env c1 := by
+      Exact c1.symbolMap cid flds ∧ c1.diagnostics = c.diagnostics ∧ PInv cenv N rid ps bv gv outer xt dt env c1 ∧
+      (∀ name, (Ast.classRefName cr).bind Ast.identifierValue = some name → N[name]? = some cid) := by
   obtain ⟨f, frest, hft⟩ : ∃ f rest, c.fileTrace = f :: rest := by
     cases hc : c.fileTrace with
     | nil => exact absurd hc hinv.trace
@@ -399,6 +402,12 @@ theorem resolveClassRefAsClass_args (cenv : CEnv) (N : Std.HashMap String Nat) (
   simp only at hchk
   obtain ⟨cid, hc1, hc2, hc3, hc4⟩ := hinv.k.classes name cps flds0 hcg
   have hid := identOf_of f nameNode name se hiv hir
+  have hnameN : ∀ nm, (some nameNode).bind Ast.identifierValue = some nm → N[nm]? = some cid := by
+    intro nm hnm
+    simp only [Option.bind_some, hiv, Option.some.injEq] at hnm
+    subst hnm
+    rw [← hinv.ntc]
+    exact hc1
   have hinv0 := hinv.addReference (.record cid) ⟨f, se.1, se.2⟩
   have hc3' : TAsOK (c.setSM (c.symbolMap.addReference (.record cid) ⟨f, se.1, se.2⟩)).symbolMap cid cps :=
     hc3.transport rfl (Nat.le_refl _) (fun _ _ => rfl)
@@ -426,9 +435,9 @@ theorem resolveClassRefAsClass_args (cenv : CEnv) (N : Std.HashMap String Nat) (
           (((c.setSM (c.symbolMap.addReference (.record cid) ⟨f, se.1, se.2⟩)).symbolMap.record cid).nameToTemplateArg.toList.map
             fun e => (c.setSM (c.symbolMap.addReference (.record cid) ⟨f, se.1, se.2⟩)).symbolMap.templateArg e.2)
           avs (nodeRange cr)).run c1 = .ok ((), c1) ∧
-        Exact c1.symbolMap cid flds0 ∧ c1.diagnostics = c.diagnostics ∧ PInv cenv N rid ps bv gv outer xt env c1 := by
+        Exact c1.symbolMap cid flds0 ∧ c1.diagnostics = c.diagnostics ∧ PInv cenv N rid ps bv gv outer xt dt env c1 := by
     intro args h1 h2
-    obtain ⟨avs, c1, hr1, hpos, hlen, hd1, hinv1⟩ := args4_step k cenv N rid ps bv gv outer xt env args _ _ hinv0 h1
+    obtain ⟨avs, c1, hr1, hpos, hlen, hd1, hinv1⟩ := args4_step k cenv N rid ps bv gv outer xt dt env args _ _ hinv0 h1
     obtain ⟨cid', g1, g2, g3, g4⟩ := hinv1.k.classes name cps flds0 hcg
     have hcid : cid' = cid := by
       rw [hinv1.ntc] at g1
@@ -448,7 +457,7 @@ theorem resolveClassRefAsClass_args (cenv : CEnv) (N : Std.HashMap String Nat) (
       obtain ⟨avs, c1, hr1, hct, hex, hd1, hinv1⟩ := hfin [] hok.1 hok.2
       simp only [List.mapM_nil, StateT.run_pure] at hr1
       cases hr1
-      refine ⟨cid, _, ?_, hc2, hex, hd1, hinv1⟩
+      refine ⟨cid, _, ?_, hc2, hex, hd1, hinv1, hnameN⟩
       simp only [hnn, StateT.run_bind, utilsIdentifier_runOf nameNode c f frest hft, hid, Except.ok_bind, withSM_run,
         SymMap.findClass, hc1, addReference_run, StateT.run_pure, pure_bind, hct]
       rfl
@@ -463,7 +472,7 @@ theorem resolveClassRefAsClass_args (cenv : CEnv) (N : Std.HashMap String Nat) (
       cases hchk
       simp only [Bool.and_eq_true] at hok
       obtain ⟨avs, c1, hr1, hct, hex, hd1, hinv1⟩ := hfin _ hok.1 hok.2
-      refine ⟨cid, c1, ?_, hc2, hex, hd1, hinv1⟩
+      refine ⟨cid, c1, ?_, hc2, hex, hd1, hinv1, hnameN⟩
       unfold indexArgValueList
       simp only [hnn, StateT.run_bind, utilsIdentifier_runOf nameNode c f frest hft, hid, Except.ok_bind, withSM_run,
         SymMap.findClass, hc1, addReference_run, StateT.run_pure, hr1, hct]
@@ -472,10 +481,10 @@ theorem resolveClassRefAsClass_args (cenv : CEnv) (N : Std.HashMap String Nat) (
       cases hchk
 
 
-theorem templateArgDecl4_step (cenv : CEnv) (N : Std.HashMap String Nat) (n : PTree) (rid : Nat) (ps ps' : Params) (gv : Env) (outer : List Scope) (xt : XTab)
-    (c c' : IndexCtx) (hinv : PInv cenv N rid ps [] gv outer xt [] c) (hchk : coreTemplateArgDecl4 ps n = some ps')
+theorem templateArgDecl4_step (cenv : CEnv) (N : Std.HashMap String Nat) (n : PTree) (rid : Nat) (ps ps' : Params) (gv : Env) (outer : List Scope) (xt : XTab) (dt : DTabs)
+    (c c' : IndexCtx) (hinv : PInv cenv N rid ps [] gv outer xt dt [] c) (hchk : coreTemplateArgDecl4 ps n = some ps')
     (hrun : (indexTemplateArgDecl (mkRec (k + 1)) n).run c = .ok ((), c')) :
-    c'.diagnostics = c.diagnostics ∧ PInv cenv N rid ps' [] gv outer xt [] c' := by
+    c'.diagnostics = c.diagnostics ∧ PInv cenv N rid ps' [] gv outer xt dt [] c' := by
   obtain ⟨f, rest, hft⟩ : ∃ f rest, c.fileTrace = f :: rest := by
     cases hc : c.fileTrace with
     | nil => exact absurd hc hinv.trace
@@ -533,7 +542,7 @@ theorem templateArgDecl4_step (cenv : CEnv) (N : Std.HashMap String Nat) (n : PT
       by_cases hci : coreInit2 (Params.env (ps ++ [(name, ty, true)])) ty v = true
       · simp only [hci, if_true] at hchk
         cases hchk
-        obtain ⟨vt, c1, hvr, hcast, hd, hi⟩ := init3_value k cenv N rid _ [] gv outer xt [] ty v _ hinv2 (coreInit2_mono_right _ gv ty v hci)
+        obtain ⟨vt, c1, hvr, hcast, hd, hi⟩ := init3_value k cenv N rid _ [] gv outer xt dt [] ty v _ hinv2 (coreInit2_mono_right _ gv ty v hci)
         simp only [StateT.run_bind, hvr, Except.ok_bind, canBeCastedTo_run, hcast, Bool.not_true, Bool.false_eq_true,
           if_false] at hrun
         cases hrun
@@ -550,11 +559,11 @@ def coreTemplateArgs4 : Params → List PTree → Option Params
     | some ps' => coreTemplateArgs4 ps' rest
     | none => none
 
-theorem templateArgList4_step (cenv : CEnv) (N : Std.HashMap String Nat) (tl : PTree) (rid : Nat) (ps ps' : Params) (gv : Env) (outer : List Scope) (xt : XTab)
-    (c c' : IndexCtx) (hinv : PInv cenv N rid ps [] gv outer xt [] c)
+theorem templateArgList4_step (cenv : CEnv) (N : Std.HashMap String Nat) (tl : PTree) (rid : Nat) (ps ps' : Params) (gv : Env) (outer : List Scope) (xt : XTab) (dt : DTabs)
+    (c c' : IndexCtx) (hinv : PInv cenv N rid ps [] gv outer xt dt [] c)
     (hchk : coreTemplateArgs4 ps (Ast.templateArgListArgs tl) = some ps')
     (hrun : (indexTemplateArgList (mkRec (k + 1)) tl).run c = .ok ((), c')) :
-    c'.diagnostics = c.diagnostics ∧ PInv cenv N rid ps' [] gv outer xt [] c' := by
+    c'.diagnostics = c.diagnostics ∧ PInv cenv N rid ps' [] gv outer xt dt [] c' := by
   unfold indexTemplateArgList at hrun
   obtain ⟨u, c'', hloop, hpure⟩ := IxM.run_bind_ok hrun
   simp only [StateT.run_pure] at hpure
@@ -578,7 +587,7 @@ theorem templateArgList4_step (cenv : CEnv) (N : Std.HashMap String Nat) (tl : P
     | none => rw [hd] at hchk; cases hchk
     | some ps1 =>
       rw [hd] at hchk
-      obtain ⟨q1, hinv1⟩ := templateArgDecl4_step k cenv N d rid ps ps1 gv outer xt c c1 hinv hd j1
+      obtain ⟨q1, hinv1⟩ := templateArgDecl4_step k cenv N d rid ps ps1 gv outer xt dt c c1 hinv hd j1
       obtain ⟨q2, r⟩ := ih ps1 c1 hinv1 hchk hloop
       exact ⟨q2.trans q1, r⟩
 
@@ -590,11 +599,11 @@ def coreParents4 (cenv : CEnv) (pe : Env) : Env → List PTree → Option Env
     | some flds => coreParents4 cenv pe (env ++ flds) rest
     | none => none
 
-theorem parents4_step (cenv : CEnv) (N : Std.HashMap String Nat) (pcl : PTree) (rid : Nat) (ps : Params) (gv : Env) (outer : List Scope) (xt : XTab) (env env' : Env)
-    (c c' : IndexCtx) (hinv : PInv cenv N rid ps [] gv outer xt env c)
+theorem parents4_step (cenv : CEnv) (N : Std.HashMap String Nat) (pcl : PTree) (rid : Nat) (ps : Params) (gv : Env) (outer : List Scope) (xt : XTab) (dt : DTabs) (env env' : Env)
+    (c c' : IndexCtx) (hinv : PInv cenv N rid ps [] gv outer xt dt env c)
     (hchk : coreParents4 cenv (ps.env ++ gv) env (Ast.parentClassListClasses pcl) = some env')
     (hrun : (indexParentClassList (mkRec (k + 1)) pcl).run c = .ok ((), c')) :
-    c'.diagnostics = c.diagnostics ∧ PInv cenv N rid ps [] gv outer xt env' c' := by
+    c'.diagnostics = c.diagnostics ∧ PInv cenv N rid ps [] gv outer xt dt env' c' := by
   unfold indexParentClassList at hrun
   obtain ⟨r0, c0, h0, hrun1⟩ := IxM.run_bind_ok hrun
   rw [currentRecordId_run, hinv.currentRecordId] at h0
@@ -620,7 +629,7 @@ theorem parents4_step (cenv : CEnv) (N : Std.HashMap String Nat) (pcl : PTree) (
     | some flds =>
       rw [hp] at hchk
       simp only at hchk
-      obtain ⟨cid, c2, hres, hlt, hex, hd, hinv2⟩ := resolveClassRefAsClass_args k cenv N rid ps [] gv outer xt env flds cr c hinv hp
+      obtain ⟨cid, c2, hres, hlt, hex, hd, hinv2, _⟩ := resolveClassRefAsClass_args k cenv N rid ps [] gv outer xt dt env flds cr c hinv hp
       have hne : (cid == rid) = false := by simp; omega
       simp only [StateT.run_bind, hres, Except.ok_bind, hne, Bool.false_eq_true, if_false, recordMut_run,
         StateT.run_pure] at h1
@@ -641,10 +650,10 @@ def coreRecordBody4 (cenv : CEnv) (pe : Env) (rb : PTree) : Option Env :=
       | some b => coreItems3 pe env (Ast.bodyItems b)
     | none => none
 
-theorem recordBody4_step (cenv : CEnv) (N : Std.HashMap String Nat) (rb : PTree) (rid : Nat) (ps : Params) (outer : List Scope) (xt : XTab) (env' : Env)
-    (c c' : IndexCtx) (hinv : PInv cenv N rid ps [] [] outer xt [] c) (hchk : coreRecordBody4 cenv ps.env rb = some env')
+theorem recordBody4_step (cenv : CEnv) (N : Std.HashMap String Nat) (rb : PTree) (rid : Nat) (ps : Params) (outer : List Scope) (xt : XTab) (dt : DTabs) (env' : Env)
+    (c c' : IndexCtx) (hinv : PInv cenv N rid ps [] [] outer xt dt [] c) (hchk : coreRecordBody4 cenv ps.env rb = some env')
     (hrun : (indexRecordBody (mkRec (k + 1)) rb).run c = .ok ((), c')) :
-    c'.diagnostics = c.diagnostics ∧ PInv cenv N rid ps [] [] outer xt env' c' := by
+    c'.diagnostics = c.diagnostics ∧ PInv cenv N rid ps [] [] outer xt dt env' c' := by
   unfold coreRecordBody4 at hchk
   unfold indexRecordBody at hrun
   cases hp : Ast.recordBodyParentClassList rb with
@@ -658,7 +667,7 @@ theorem recordBody4_step (cenv : CEnv) (N : Std.HashMap String Nat) (rb : PTree)
       rw [hps] at hchk
       simp only at hchk
       obtain ⟨_, c1, h1, hrun⟩ := IxM.run_bind_ok hrun
-      obtain ⟨hd1, hinv1⟩ := parents4_step k cenv N pcl rid ps [] outer xt [] env c c1 hinv (by rw [List.append_nil]; exact hps) h1
+      obtain ⟨hd1, hinv1⟩ := parents4_step k cenv N pcl rid ps [] outer xt dt [] env c c1 hinv (by rw [List.append_nil]; exact hps) h1
       cases hb : Ast.recordBodyBody rb with
       | none => rw [hb] at hrun hchk; cases hrun; cases hchk; exact ⟨hd1, hinv1⟩
       | some b =>
@@ -668,7 +677,7 @@ theorem recordBody4_step (cenv : CEnv) (N : Std.HashMap String Nat) (rb : PTree)
         obtain ⟨u, c2, h2, h3⟩ := IxM.run_bind_ok hrun
         simp only [StateT.run_pure] at h3
         cases h3
-        obtain ⟨hd2, hinv2⟩ := items3_step k cenv N _ rid ps outer xt env env' c1 c' u hinv1 hchk h2
+        obtain ⟨hd2, hinv2⟩ := items3_step k cenv N _ rid ps outer xt dt env env' c1 c' u hinv1 hchk h2
         exact ⟨hd2.trans hd1, hinv2⟩
 
 
@@ -718,19 +727,30 @@ theorem coreClass4_eq (cenv : CEnv) (n : PTree) :
 /-- the name of a `class` statement -/
 def classNameOf (n : PTree) : Option String := (Ast.className n).bind Ast.identifierValue
 
-theorem indexClassG_step (chk : CEnv → XTab → Params → PTree → Option Env) (gv : Env)
+/-- the ancestors filed for the class -/
+def classOwn (ownFn : XTab → PTree → List Nat) (xt : XTab) (n : PTree) : List Nat :=
+  match classNameOf n, Ast.classRecordBody n with
+  | some name, some rb => ownFn ((name, none) :: xt) rb
+  | _, _ => []
+
+theorem indexClassG_step (chk : CEnv → XTab → Params → PTree → Option Env) (gv : Env) (dt : DTabs)
+    (ownFn : XTab → PTree → List Nat) (sc0 : List Scope)
     (hbody : ∀ (cenv' : CEnv) (xt' : XTab) (ps : Params) (rb : PTree) (env : Env) (N : Std.HashMap String Nat) (rid : Nat)
-      (outer : List Scope) (c6 c7 : IndexCtx),
-      PInv cenv' N rid ps [] gv outer xt' [] c6 → chk cenv' xt' ps rb = some env →
+      (outer : List Scope) (c6 c7 : IndexCtx), outer = sc0 →
+      PInv cenv' N rid ps [] gv outer xt' dt [] c6 → chk cenv' xt' ps rb = some env →
       (indexRecordBody (mkRec (k + 1)) rb).run c6 = .ok ((), c7) →
-      c7.diagnostics = c6.diagnostics ∧ ∃ bv, PInv cenv' N rid ps bv gv outer xt' env c7)
+      c7.diagnostics = c6.diagnostics ∧ ∃ bv, PInv cenv' N rid ps bv gv outer xt' { dt with own := ownFn xt' rb } env c7)
     (cenv cenv' : CEnv) (xt : XTab) (n : PTree) (c c' : IndexCtx) (hT : TabInv cenv c)
-    (houter : OuterOK c.symbolMap c.scopes.scopes gv) (hxt : XInv xt c.symbolMap.recordList.size c.symbolMap)
+    (houter : OuterOK c.symbolMap c.scopes.scopes gv) (hsc : c.scopes.scopes = sc0)
+    (hxt : XInv xt c.symbolMap.recordList.size c.symbolMap)
+    (hdt : DInv dt c.symbolMap.recordList.size c.symbolMap) (hown : dt.own = [])
     (hchk : coreClassG chk cenv xt n = some cenv') (hrun : (indexClass (mkRec (k + 1)) n).run c = .ok ((), c')) :
     c'.diagnostics = c.diagnostics ∧ TabInv cenv' c' ∧ c'.scopes.scopes = c.scopes.scopes ∧
       (∀ name, classNameOf n = some name →
         XInv ((name, some c.symbolMap.recordList.size) :: xt) c'.symbolMap.recordList.size c'.symbolMap) ∧
-      c'.symbolMap.recordList.size = c.symbolMap.recordList.size + 1 := by
+      c'.symbolMap.recordList.size = c.symbolMap.recordList.size + 1 ∧
+      DInv (closeTab { dt with own := classOwn ownFn xt n } c.symbolMap.recordList.size) c'.symbolMap.recordList.size
+        c'.symbolMap := by
   obtain ⟨f, rest, hft⟩ : ∃ f rest, c.fileTrace = f :: rest := by
     cases hc : c.fileTrace with
     | nil => exact absurd hc hT.trace
@@ -794,23 +814,33 @@ theorem indexClassG_step (chk : CEnv → XTab → Params → PTree → Option En
         simp only [IndexCtx.setSM_symbolMap, t4]
         rw [Std.HashMap.getElem?_insert]
         have : (name == nm) = false := by simpa using fun e' => e e'.symm
-        simp [this]) _ rfl rfl rfl ho hcls h3
+        simp [this]) (dtB := dt)
+    (by
+      have hd0 := hdt.opened hT.k.older { name := name, kind := .cls, defineLoc := ⟨f, se.1, se.2⟩ }
+        (sm' := (c.symbolMap.addRecord { name := name, kind := .cls, defineLoc := ⟨f, se.1, se.2⟩ } true).2) t2 rfl dt.defs
+        (fun nm id hg => Or.inl ⟨hg, by rw [addRecord_nameToDef]⟩)
+      have e : ({ defs := dt.defs, anc := dt.anc, own := [] } : DTabs) = dt := by
+        cases dt; simp only at hown; subst hown; rfl
+      rw [e] at hd0
+      exact hd0) _ rfl rfl rfl ho hcls h3
   have hN : (c.setSM (c.symbolMap.addRecord { name := name, kind := .cls, defineLoc := ⟨f, se.1, se.2⟩ } true).2).symbolMap.nameToClass[name]? =
       some c.symbolMap.recordList.size := by
     simp only [IndexCtx.setSM_symbolMap, t4]
     simp
-  have hclose : ∀ (ps : Params) (bv gv : Env) (env : Env) (c4 : IndexCtx), c4.diagnostics = c.diagnostics →
+  have hclose : ∀ (ps : Params) (bv gv : Env) (own : List Nat) (env : Env) (c4 : IndexCtx), c4.diagnostics = c.diagnostics →
       PInv ((name, none) :: cenv)
         (c.setSM (c.symbolMap.addRecord { name := name, kind := .cls, defineLoc := ⟨f, se.1, se.2⟩ } true).2).symbolMap.nameToClass
-        c.symbolMap.recordList.size ps bv gv c.scopes.scopes ((name, none) :: xt) env c4 →
+        c.symbolMap.recordList.size ps bv gv c.scopes.scopes ((name, none) :: xt) { dt with own := own } env c4 →
       scopesPop.run c4 = .ok ((), c') → c'.diagnostics = c.diagnostics ∧ TabInv ((name, some (ps, env)) :: cenv) c' ∧
         c'.scopes.scopes = c.scopes.scopes ∧
         (∀ name', classNameOf n = some name' →
           XInv ((name', some c.symbolMap.recordList.size) :: xt) c'.symbolMap.recordList.size c'.symbolMap) ∧
-        c'.symbolMap.recordList.size = c.symbolMap.recordList.size + 1 := by
-    intro ps bv gv env c4 q4 hinv4 h5
+        c'.symbolMap.recordList.size = c.symbolMap.recordList.size + 1 ∧
+        DInv (closeTab { dt with own := own } c.symbolMap.recordList.size) c'.symbolMap.recordList.size c'.symbolMap := by
+    intro ps bv gv own env c4 q4 hinv4 h5
     have s5 := scopesPop_eqs h5
-    refine ⟨s5.1.trans q4, hinv4.close ?_ s5.2.2.1 s5.2.1, hinv4.popped h5, ?_, by rw [s5.2.2.1, ← hinv4.newest]⟩
+    refine ⟨s5.1.trans q4, hinv4.close ?_ s5.2.2.1 s5.2.1, hinv4.popped h5, ?_, by rw [s5.2.2.1, ← hinv4.newest],
+      hinv4.closeD s5.2.2.1⟩
     · intro cname flds hg
       rw [CEnv.get_cons] at hg ⊢
       by_cases e : cname = name
@@ -841,7 +871,7 @@ theorem indexClassG_step (chk : CEnv → XTab → Params → PTree → Option En
         | none => some []) = some ps ∧ c3'.diagnostics = c.diagnostics ∧
       PInv ((name, none) :: cenv)
         (c.setSM (c.symbolMap.addRecord { name := name, kind := .cls, defineLoc := ⟨f, se.1, se.2⟩ } true).2).symbolMap.nameToClass
-        c.symbolMap.recordList.size ps [] gv c.scopes.scopes ((name, none) :: xt) [] c3' ∧
+        c.symbolMap.recordList.size ps [] gv c.scopes.scopes ((name, none) :: xt) dt [] c3' ∧
       (match Ast.classRecordBody n with
         | some body => do
           indexRecordBody (mkRec (k + 1)) body
@@ -859,7 +889,7 @@ theorem indexClassG_step (chk : CEnv → XTab → Params → PTree → Option En
       cases hps : coreTemplateArgs4 [] (Ast.templateArgListArgs tl) with
       | none => rw [hps] at hchk; cases hchk
       | some ps =>
-        obtain ⟨q, hi⟩ := templateArgList4_step k _ _ tl _ [] ps gv _ _ c3 c3' hinv3 hps h3'
+        obtain ⟨q, hi⟩ := templateArgList4_step k _ _ tl _ [] ps gv _ _ _ c3 c3' hinv3 hps h3'
         cases hb : Ast.classRecordBody n <;> rw [hb] at hrun <;> exact ⟨ps, c3', hps, q.trans q3, hi, hrun⟩
   obtain ⟨ps, c3', hps, q3', hinv3', hrun'⟩ := hhead
   rw [hps] at hchk
@@ -869,7 +899,11 @@ theorem indexClassG_step (chk : CEnv → XTab → Params → PTree → Option En
     rw [hb] at hrun' hchk
     simp only at hrun' hchk
     cases hchk
-    exact hclose ps [] gv [] c3' q3' hinv3' hrun'
+    have hcn : classNameOf n = some name := by unfold classNameOf; rw [hnn]; exact hiv
+    have e1 : classOwn ownFn xt n = [] := by unfold classOwn; rw [hcn, hb]
+    have e2 : ({ dt with own := [] } : DTabs) = dt := by cases dt; simp only at hown; subst hown; rfl
+    rw [e1]
+    exact hclose ps [] gv [] [] c3' q3' (by rw [e2]; exact hinv3') hrun'
   | some rb =>
     rw [hb] at hrun' hchk
     simp only at hrun' hchk
@@ -879,17 +913,20 @@ theorem indexClassG_step (chk : CEnv → XTab → Params → PTree → Option En
       rw [hrb] at hchk
       cases hchk
       obtain ⟨_, c4, h4, hrun'⟩ := IxM.run_bind_ok hrun'
-      obtain ⟨q4, bv4, hinv4⟩ := hbody _ _ ps rb env _ _ _ c3' c4 hinv3' hrb h4
-      exact hclose ps bv4 gv env c4 (q4.trans q3') hinv4 hrun'
+      obtain ⟨q4, bv4, hinv4⟩ := hbody _ _ ps rb env _ _ _ c3' c4 hsc hinv3' hrb h4
+      have hcn : classNameOf n = some name := by unfold classNameOf; rw [hnn]; exact hiv
+      have e1 : classOwn ownFn xt n = ownFn ((name, none) :: xt) rb := by unfold classOwn; rw [hcn, hb]
+      rw [e1]
+      exact hclose ps bv4 gv _ env c4 (q4.trans q3') hinv4 hrun'
 
 theorem indexClass4_step (cenv cenv' : CEnv) (n : PTree) (c c' : IndexCtx) (hT : TabInv cenv c)
     (hchk : coreClass4 cenv n = some cenv') (hrun : (indexClass (mkRec (k + 1)) n).run c = .ok ((), c')) :
     c'.diagnostics = c.diagnostics ∧ TabInv cenv' c' := by
   rw [coreClass4_eq] at hchk
-  have h := indexClassG_step k _ []
-    (fun cenv' xt' ps rb env N rid outer c6 c7 hinv hrb h7 =>
-      let ⟨q, hi⟩ := recordBody4_step k cenv' N rb rid ps outer xt' env c6 c7 hinv hrb h7
-      ⟨q, [], hi⟩) cenv cenv' [] n c c' hT (OuterOK.nil _ _) (XInv.nil _ _) hchk hrun
+  have h := indexClassG_step k _ [] {} (fun _ _ => []) c.scopes.scopes
+    (fun cenv' xt' ps rb env N rid outer c6 c7 _ hinv hrb h7 =>
+      let ⟨q, hi⟩ := recordBody4_step k cenv' N rb rid ps outer xt' {} env c6 c7 hinv hrb h7
+      ⟨q, [], hi⟩) cenv cenv' [] n c c' hT (OuterOK.nil _ _) rfl (XInv.nil _ _) (DInv.nil _ _) rfl hchk hrun
   exact ⟨h.1, h.2.1⟩
 
 /-- `def d [: parents] { … }` of the fourth core (any name, or anonymous) -/
@@ -904,10 +941,11 @@ theorem indexDef4_step (cenv : CEnv) (n : PTree) (c c' : IndexCtx) (hT : TabInv 
       ((Ast.defRecordBody n).isSome = true → c'.scopes.scopes = c.scopes.scopes) ∧
       XInv [] c'.symbolMap.recordList.size c'.symbolMap ∧
       c'.symbolMap.recordList.size = c.symbolMap.recordList.size + 1 from ⟨h.1, h.2.1⟩
-  refine indexDefG_step k cenv (coreRecordBody4 cenv []) [] []
-    (fun rb env N rid outer c6 c7 hinv hrb h7 =>
-      let ⟨q, hi⟩ := recordBody4_step k cenv N rb rid [] outer [] env c6 c7 hinv hrb h7
-      ⟨q, [], hi⟩) n c c' hT (OuterOK.nil _ _) (XInv.nil _ _) ?_ hrun
+  have h := indexDefG_step k cenv (coreRecordBody4 cenv []) [] [] {} (fun _ => []) c.scopes.scopes
+    (fun rb env N rid outer c6 c7 _ hinv hrb h7 =>
+      let ⟨q, hi⟩ := recordBody4_step k cenv N rb rid [] outer [] {} env c6 c7 hinv hrb h7
+      ⟨q, [], hi⟩) n c c' hT (OuterOK.nil _ _) rfl (XInv.nil _ _) rfl (fun _ _ _ _ _ _ _ _ => DInv.nil _ _) ?_ hrun
+  · exact ⟨h.1, h.2.1, h.2.2.1, h.2.2.2.1, h.2.2.2.2.1⟩
   intro rb hb
   unfold coreDef4 at hchk
   rw [hb] at hchk
